@@ -131,7 +131,126 @@ def collect(prop, tier, fnd, cov, ck):
         cov["samples"] = first_segments(dump["crash"]["file"], 2)
         cov["evaluations"] = cov.get("trace_events", 0)
         return
+    if prop in ("C08", "C09"):
+        ms = stage_memsize(tier, ck)
+        cov["evaluations"] = ms["records"]
+        cov["type_terms"] = ms["gen"]["types"]
+        cov["distinct_nontrivial"] = ms["distinct_shapes"]
+        cov["samples"] = ms["samples"]
+        cov["tlc_records_validated"] = ms["validated"]
+        cov["totality_cases"] = ms["total_cases"]
+        cov["rule"] = ("TLC enumerates every type term of depth <= 2 over %d constructors (trait bounds "
+                       "respected) plus a seeded depth-3 sample and fixed tuple/array terms; for each, "
+                       "generated values with random builder histories (spare capacity at every level), "
+                       "7 iterator shapes for the four bulk helpers, and 10^6-element runs on a 2 MiB "
+                       "stack; non-trivial = distinct (type term, abstract shape) pairs with at least one "
+                       "heap allocation or child" % ms["constructors"])
+        for b in ms["bad"]:
+            for pr, facet in b["bad"]:
+                if pr == prop:
+                    fnd.add("memsize:%s:%s" % (sig_type(b.get("ty", "?")), facet.split(":")[0] if pr == "C09" else facet),
+                            "size probe %s (%s): facet %s rejected by spec/MemSize.tla: %s" %
+                            (b.get("ty"), b.get("file"), facet, json.dumps(b.get("record"))[:400]),
+                            {"kind": "memsize", "record": b.get("record"), "facet": facet, "ty": b.get("ty")})
+        return
     raise ck.ToolError("no stage built yet for " + prop)
+
+
+def sig_type(ty):
+    """signature class of a type term: the innermost constructor that matters"""
+    for leaf in ("PathBuf", "OsString", "CString", "BoxPath", "BoxCStr", "BoxStr", "HashMap", "HashSet"):
+        if leaf in ty:
+            return leaf
+    return ty.split("(")[0].split("<")[0]
+
+
+def stage_memsize(tier, ck):
+    import shutil
+    import subprocess
+    import sys
+    seed = os.environ.get("VERIF_SEED", "0")
+    ms_dir = os.path.join(ck.ROOT, "memsize")
+
+    def go(d):
+        w = ck.spec_workdir(d)
+        p = ck.tlc(w, "MemSize.tla", "MemSizeEnum.cfg", workers=1, timeout=600)
+        types_out = os.path.join(d, "types.out")
+        with open(types_out, "w") as fh:
+            fh.write(p.stdout)
+        q = ck.run([sys.executable, os.path.join(ck.ROOT, "tools", "gen_probes.py"), types_out,
+                    os.path.join(ms_dir, "src", "gen.rs"), "--seed", seed,
+                    "--depth3", "60" if tier == "quick" else "600"], 600)
+        gen = json.loads(q.stdout.strip().splitlines()[-1])
+        b = ck.run(["cargo", "build", "--offline"], 3600, cwd=ms_dir, env={"CARGO_NET_OFFLINE": "true"},
+                   ok_codes=None)
+        if b.returncode != 0:
+            raise ck.ToolError("size probes do not build:\n" + b.stderr[-4000:])
+        exe = os.path.join(ms_dir, "target", "debug", "lru-mem-verif-memsize")
+        reps = "6" if tier == "quick" else "40"
+        files = {}
+        for mode, args in (("values", [seed, reps]), ("bulk", [seed])):
+            r = subprocess.run([exe, mode] + args, stdout=subprocess.PIPE, stderr=subprocess.PIPE, text=True,
+                               timeout=1800)
+            path = os.path.join(d, mode + ".ndjson")
+            with open(path, "w") as fh:
+                fh.write(r.stdout)
+            files[mode] = path
+            if r.returncode != 0:
+                # the crate's size computation brought the process down
+                with open(path, "a") as fh:
+                    fh.write(json.dumps({"kind": "total", "ty": "<" + mode + " run>", "n": 0,
+                                         "status": "crash_rc_%d" % r.returncode, "heap": 0, "expect": 0}) + "\n")
+        # totality: one child process per case
+        cases = ["Vec<[String;0]>", "Vec<[u8;0]>", "Vec<[[String;0];3]>", "Vec<[String;1]>",
+                 "Vec<Box<u64>>", "Vec<(String,u8)>", "Vec<Option<String>>", "Vec<Vec<u8>>",
+                 "Vec<Box<[[u8;0]]>>", "Vec<Wrapping<[String;0]>>", "Vec<u64>"]
+        n = "1000000" if tier == "quick" else "3000000"
+        tot = os.path.join(d, "total.ndjson")
+        with open(tot, "w") as fh:
+            for c in cases:
+                try:
+                    r = subprocess.run([exe, "total", c, n], stdout=subprocess.PIPE, stderr=subprocess.PIPE,
+                                       text=True, timeout=600)
+                    line = r.stdout.strip().splitlines()[-1] if r.stdout.strip() else ""
+                    rc = r.returncode
+                except subprocess.TimeoutExpired:
+                    line, rc = "", -9
+                if rc != 0 or not line:
+                    line = json.dumps({"kind": "total", "ty": c, "n": int(n),
+                                       "status": "stack_overflow_or_abort_rc_%d" % rc, "heap": 0, "expect": 0})
+                fh.write(line + "\n")
+        files["total"] = tot
+        bad = []
+        validated = 0
+        shapes = set()
+        samples = []
+        for mode, path in files.items():
+            ww = os.path.join(d, "w-" + mode)
+            shutil.copytree(w, ww)
+            v = ck.validate_trace(ww, path, cfg="MemSizeTrace.cfg", module="MemSize.tla")
+            shutil.rmtree(ww, ignore_errors=True)
+            if not v["ok"]:
+                raise ck.ToolError("TLC could not evaluate the size records:\n" + v["tail"])
+            recs = [json.loads(x) for x in open(path) if x.strip()]
+            validated += len(recs)
+            for r in recs:
+                if r["kind"] == "value" and (r["alloc"] != 0 or r["abs"].get("es")):
+                    shapes.add((r["ty"], json.dumps(r["abs"], sort_keys=True)))
+                if len(samples) < 3 and r["kind"] == "value" and r["alloc"] > 0 and len(json.dumps(r)) < 900:
+                    samples.append(r)
+            for bline in v["bad"]:
+                rec = recs[bline["line"] - 1] if 0 < bline["line"] <= len(recs) else {}
+                bad.append({"bad": bline["bad"], "ty": bline.get("ty") or rec.get("ty"), "file": mode,
+                            "record": rec if len(json.dumps(rec)) < 3000 else {"ty": rec.get("ty")}})
+        shutil.rmtree(w, ignore_errors=True)
+        for f in files.values():
+            os.remove(f)
+        return {"gen": gen, "records": validated, "validated": validated, "bad": bad[:400],
+                "distinct_shapes": len(shapes), "samples": samples, "total_cases": len(cases),
+                "constructors": 12 + 18 + 3}
+    return ck.cached("memsize-" + tier, ck.source_hash() + "-" + ck.spec_hash() + "-" + seed +
+                     "-" + ck.tree_hash([os.path.join(ms_dir, "src", "probe.rs"),
+                                         os.path.join(ms_dir, "src", "main.rs")])[:12], go)
 
 
 def first_segments(path, n):
